@@ -1,2 +1,359 @@
-(* Tags: model definitions (stub, to be filled in). *)
-From Klog Require Import Base.Prelude.
+(* Tags: klog's tag recognition, tag sets and per-tag totals
+   (klog/tag.go, klog/summary.go Tags(), klog/service/tags.go, klog/service/query.go isSubsetOf).
+   Definitions only.
+
+   Text is bytes; Go's regexp engine, strings.ToLower and `range` see it as runes decoded with
+   utf8.DecodeRuneInString (an invalid byte is U+FFFD of width 1). A *symbol* is a decoded rune together
+   with the bytes it was decoded from, so that sub-matches can be cut out of the original string exactly
+   as Go does (byte offsets), including invalid bytes inside quoted values.
+
+   The regular expression
+       HashTagPattern = # NAME+ ( = ( D [^D]* D | ' [^']* ' | NAME* ) )?    with NAME = [\p{L}\d_-], D = the double quote
+   is re-implemented as a hand-written matcher with Go's leftmost-first semantics; it is generic in the
+   symbol type [A] (with [code : A -> N] giving the rune) and in [is_letter], the meaning of \p{L}. *)
+From Klog Require Import Base.Prelude Base.Utf8 Model.Calendar Model.Values Model.Record Gen.UnicodeTables.
+Open Scope N_scope.
+
+(* ---------- table lookups (the generated tables are sorted, see harness/gentables) ---------- *)
+
+Fixpoint in_ranges (l : list (N * N)) (r : N) : bool :=
+  match l with
+  | [] => false
+  | (lo, hi) :: t => if r <? lo then false else if r <=? hi then true else in_ranges t r
+  end.
+
+Fixpoint lower_lookup (l : list (N * N * N * N)) (r : N) : N :=
+  match l with
+  | [] => r
+  | (lo, hi, step, tgt) :: t =>
+    if r <? lo then r
+    else if (r <=? hi) && ((r - lo) mod step =? 0) then tgt + (r - lo)
+    else lower_lookup t r
+  end.
+
+(* unicode.Is(unicode.L, r) / \p{L}, and unicode.ToLower(r), of the Go toolchain that builds klog *)
+Definition go_is_letter (r : N) : bool := in_ranges unicode_L r.
+Definition go_to_lower (r : N) : N := lower_lookup unicode_lower r.
+
+Definition ch_hash : N := 35.  Definition ch_eq : N := 61.
+Definition ch_dq : N := 34.    Definition ch_sq : N := 39.
+Definition ch_us : N := 95.    Definition ch_dash : N := 45.
+Definition ch_nl : N := 10.
+
+(* ================= the matcher, generic in the symbol type ================= *)
+
+Section Scanner.
+  Variable is_letter : N -> bool.
+  Variable A : Type.
+  Variable code : A -> N.
+
+  (* [\p{L}\d_-] ; \d is ASCII-only in Go's regexp *)
+  Definition name_code (c : N) : bool := is_letter c || is_digit c || (c =? ch_us) || (c =? ch_dash).
+  Definition name_char (a : A) : bool := name_code (code a).
+
+  (* one match of HashTagPattern: group 0 (everything), group 1 (name), group 3 (value with its quotes) *)
+  Record rmatch := { m_all : list A; m_name : list A; m_val : list A }.
+
+  (* [^q]* q : the symbols before the first symbol with code q, that symbol, and what follows it *)
+  Fixpoint until_quote (q : N) (s : list A) : option (list A * A * list A) :=
+    match s with
+    | [] => None
+    | c :: r =>
+      if code c =? q then Some ([], c, r)
+      else match until_quote q r with
+           | Some (body, cl, rest) => Some (c :: body, cl, rest)
+           | None => None
+           end
+    end.
+
+  (* the optional group ( = ( D [^D]* D | ' [^']* ' | NAME* ) )? at [after]:
+     (group 2, group 3, remaining input). Leftmost-first: the group is entered whenever '=' follows;
+     the quoted alternatives are tried first; the last alternative always succeeds (possibly empty). *)
+  Definition match_value (after : list A) : list A * list A * list A :=
+    match after with
+    | e :: r =>
+      if code e =? ch_eq then
+        let unquoted := let '(run, rest) := span name_char r in (e :: run, run, rest) in
+        match r with
+        | q :: r' =>
+          if (code q =? ch_dq) || (code q =? ch_sq) then
+            match until_quote (code q) r' with
+            | Some (body, cl, rest) => (e :: q :: body ++ [cl], q :: body ++ [cl], rest)
+            | None => unquoted
+            end
+          else unquoted
+        | [] => unquoted
+        end
+      else ([], [], after)
+    | [] => ([], [], [])
+    end.
+
+  (* the pattern anchored at the head of s *)
+  Definition match_at (s : list A) : option (rmatch * list A) :=
+    match s with
+    | h :: r =>
+      if code h =? ch_hash then
+        let '(name, after) := span name_char r in
+        match name with
+        | [] => None
+        | _ => let '(g2, g3, rest) := match_value after in
+               Some ({| m_all := h :: name ++ g2; m_name := name; m_val := g3 |}, rest)
+        end
+      else None
+    | [] => None
+    end.
+
+  (* FindStringSubmatch: the leftmost match *)
+  Fixpoint find_first (s : list A) : option rmatch :=
+    match s with
+    | [] => None
+    | _ :: r => match match_at s with
+                | Some (m, _) => Some m
+                | None => find_first r
+                end
+    end.
+
+  (* FindAllStringSubmatch(s, -1): successive leftmost matches, each search resuming where the previous
+     match ended (matches are never empty). Fuel = length of the input. *)
+  Fixpoint find_all_fuel (fuel : nat) (s : list A) : list rmatch :=
+    match fuel with
+    | O => []
+    | S k =>
+      match s with
+      | [] => []
+      | _ :: r => match match_at s with
+                  | Some (m, rest) => m :: find_all_fuel k rest
+                  | None => find_all_fuel k r
+                  end
+      end
+    end.
+  Definition find_all (s : list A) : list rmatch := find_all_fuel (length s) s.
+
+  (* strings.Trim(v, q) seen on symbols: drop every leading and trailing symbol with code q *)
+  Fixpoint drop_code (q : N) (s : list A) : list A :=
+    match s with
+    | c :: r => if code c =? q then drop_code q r else s
+    | [] => []
+    end.
+  Definition trim_code (q : N) (s : list A) : list A := rev (drop_code q (rev (drop_code q s))).
+
+  (* the value of a match as NewTagFromString computes it from group 3 *)
+  Definition value_syms (v : list A) : list A :=
+    match v with
+    | c :: _ => if code c =? ch_dq then trim_code ch_dq v
+                else if code c =? ch_sq then trim_code ch_sq v
+                else v
+    | [] => []
+    end.
+
+  (* what a match denotes: (tag name as written, tag value) *)
+  Definition match_view (m : rmatch) : list A * list A := (m_name m, value_syms (m_val m)).
+End Scanner.
+
+Arguments m_all {A} _.
+Arguments m_name {A} _.
+Arguments m_val {A} _.
+
+(* ================= symbols of a byte string ================= *)
+
+Definition sym := (N * bytes)%type.
+
+Fixpoint syms_fuel (fuel : nat) (s : bytes) : list sym :=
+  match fuel with
+  | O => []
+  | S k =>
+    match s with
+    | [] => []
+    | _ => let '(r, w) := decode_rune s in (r, firstn w s) :: syms_fuel k (skipn w s)
+    end
+  end.
+Definition decode_syms (s : bytes) : list sym := syms_fuel (length s) s.
+Definition raw (l : list sym) : bytes := flat_map snd l.
+
+(* ================= tags ================= *)
+
+Record tag := { t_name : bytes; t_value : bytes }.
+
+Definition tag_eqb (a b : tag) : bool := bytes_eqb (t_name a) (t_name b) && bytes_eqb (t_value a) (t_value b).
+
+Definition has_byte (c : N) (s : bytes) : bool := existsb (N.eqb c) s.
+
+(* strings.Trim(s, string(q)) for a single ASCII byte q: a byte string is a list of symbols that are their own code *)
+Definition trim_byte (q : N) (s : bytes) : bytes := trim_code N (fun c => c) q s.
+
+(* the closure `value` in NewTagFromString, on group 3 *)
+Definition tag_value (v : bytes) : bytes :=
+  match v with
+  | c :: _ => if c =? ch_dq then trim_byte ch_dq v
+              else if c =? ch_sq then trim_byte ch_sq v
+              else v
+  | [] => []
+  end.
+
+Record tagset := { ts_lookup : list tag;     (* the keys of the Go map, in order of first insertion *)
+                   ts_original : list tag }.
+
+Record stat := { st_tag : tag; st_total : Z; st_count : Z }.
+
+(* Go string comparison a < b: bytewise lexicographic *)
+Fixpoint bytes_ltb (a b : bytes) : bool :=
+  match a, b with
+  | _, [] => false
+  | [], _ :: _ => true
+  | x :: a', y :: b' => if x <? y then true else if y <? x then false else bytes_ltb a' b'
+  end.
+
+Fixpoint insert_by {X} (lt : X -> X -> bool) (x : X) (l : list X) : list X :=
+  match l with
+  | [] => [x]
+  | y :: r => if lt y x then y :: insert_by lt x r else x :: l
+  end.
+Definition sort_by {X} (lt : X -> X -> bool) (l : list X) : list X := fold_right (insert_by lt) [] l.
+
+(* keyForSort *)
+Definition tag_key (t : tag) : bytes := t_name t ++ [ch_eq] ++ t_value t.
+Definition tag_ltb (a b : tag) : bool := bytes_ltb (tag_key a) (tag_key b).
+Definition stat_ltb (a b : stat) : bool := tag_ltb (st_tag a) (st_tag b).
+
+Fixpoint fold_o {X Y} (f : Y -> X -> outcome Y) (l : list X) (acc : Y) : outcome Y :=
+  match l with
+  | [] => Ok acc
+  | x :: r => let* acc' := f acc x in fold_o f r acc'
+  end.
+
+Section Tags.
+  Variable is_letter : N -> bool.
+  Variable to_lower : N -> N.
+
+  Notation s_name_char := (name_char is_letter sym fst).
+  Notation s_find_all := (find_all is_letter sym fst).
+  Notation s_find_first := (find_first is_letter sym fst).
+
+  (* strings.ToLower: per-rune mapping, re-encoded (invalid bytes come out as U+FFFD) *)
+  Definition str_to_lower (s : bytes) : bytes := utf8_encode (map to_lower (utf8_decode s)).
+
+  Definition mk_tag (name value : bytes) : tag := {| t_name := str_to_lower name; t_value := value |}.
+
+  (* NewTagOrPanic *)
+  Definition new_tag_or_panic (name value : bytes) : outcome tag :=
+    if has_byte ch_dq value && has_byte ch_sq value then Crash CExplicitPanic
+    else Ok (mk_tag name value).
+
+  (* NewTagFromString; Ok None is the error INVALID_TAG *)
+  Definition new_tag_from_string (s : bytes) : outcome (option tag) :=
+    let s' := match s with
+              | c :: _ => if c =? ch_hash then s else ch_hash :: s
+              | [] => [ch_hash]
+              end in
+    match s_find_first (decode_syms s') with
+    | None => Ok None
+    | Some m =>
+      let name := raw (m_name m) in
+      let value := tag_value (raw (m_val m)) in
+      if Nat.eqb (length (raw (m_all m))) (length s') then
+        let* t := new_tag_or_panic name value in Ok (Some t)
+      else Ok None
+    end.
+
+  (* unquotedValuePattern ^[\p{L}\d_-]+$ *)
+  Definition unquoted_ok (v : bytes) : bool :=
+    match decode_syms v with
+    | [] => false
+    | l => forallb s_name_char l
+    end.
+
+  (* Tag.ToString *)
+  Definition tag_to_string (t : tag) : bytes :=
+    ch_hash :: t_name t ++
+    match t_value t with
+    | [] => []
+    | v => let q := if unquoted_ok v then [] else if has_byte ch_dq v then [ch_sq] else [ch_dq] in
+           ch_eq :: q ++ v ++ q
+    end.
+
+  (* ---- TagSet ---- *)
+
+  Definition ts_empty : tagset := {| ts_lookup := []; ts_original := [] |}.
+
+  Definition set_add (t : tag) (l : list tag) : list tag := if existsb (tag_eqb t) l then l else l ++ [t].
+
+  (* NewTagOrPanic(tag.Name(), empty string): never panics *)
+  Definition bare (t : tag) : tag := mk_tag (t_name t) [].
+
+  (* TagSet.Put *)
+  Definition ts_put (ts : tagset) (t : tag) : tagset :=
+    {| ts_lookup := set_add (bare t) (set_add t (ts_lookup ts));
+       ts_original := ts_original ts ++ [t] |}.
+
+  (* TagSet.Contains *)
+  Definition ts_contains (ts : tagset) (t : tag) : bool := existsb (tag_eqb t) (ts_lookup ts).
+
+  (* TagSet.ToStrings *)
+  Definition ts_to_strings (ts : tagset) : list bytes := map tag_to_string (ts_original ts).
+
+  (* Merge: `for t := range ts.lookup { result.Put(t) }` iterates a Go map. [merge_lists] takes the
+     iteration sequences explicitly; [ts_merge] uses the order of first insertion. That nothing klog observes
+     of a merged set depends on the choice is Proofs/Tags.v merge_lists_perm. *)
+  Definition merge_lists (ls : list (list tag)) : tagset :=
+    fold_left (fun acc l => fold_left ts_put l acc) ls ts_empty.
+  Definition ts_merge (tss : list tagset) : tagset := merge_lists (map ts_lookup tss).
+
+  (* isSubsetOf (service/query.go) *)
+  Definition is_subset_of (queried : list tag) (all : tagset) : bool := forallb (ts_contains all) queried.
+
+  (* ---- Summary.Tags() ---- *)
+
+  (* `tag, _ := NewTagFromString(m[0]); tags.Put(tag)`: on an error the zero Tag would be put *)
+  Definition put_match (ts : tagset) (m : rmatch sym) : outcome tagset :=
+    let* o := new_tag_from_string (raw (m_all m)) in
+    Ok (ts_put ts (match o with Some t => t | None => {| t_name := []; t_value := [] |} end)).
+
+  Definition line_tags_o (ts : tagset) (line : bytes) : outcome tagset :=
+    fold_o put_match (s_find_all (decode_syms line)) ts.
+
+  Definition summary_tags_o (lines : list bytes) : outcome tagset := fold_o line_tags_o lines ts_empty.
+
+  (* the same without the detour through NewTagFromString's second regexp run and its panic
+     (Proofs/Tags.v summary_tags_o_eq: summary_tags_o lines = Ok (summary_tags lines)) *)
+  Definition tag_of_match (m : rmatch sym) : tag :=
+    mk_tag (raw (m_name m)) (raw (value_syms sym fst (m_val m))).
+  Definition line_tags (line : bytes) : list tag := map tag_of_match (s_find_all (decode_syms line)).
+  Definition found_tags (lines : list bytes) : list tag := flat_map line_tags lines.
+  Definition summary_tags (lines : list bytes) : tagset := fold_left ts_put (found_tags lines) ts_empty.
+
+  (* ---- AggregateTotalsByTags ---- *)
+
+  (* totalByTag.put: the nested maps name -> value -> stats are one dictionary keyed by the tag *)
+  Fixpoint stats_put (tbt : list stat) (t : tag) (d : Z) : outcome (list stat) :=
+    match tbt with
+    | [] => let* v := dur_plus 0 d in Ok [{| st_tag := t; st_total := v; st_count := 1 |}]
+    | s :: r =>
+      if tag_eqb (st_tag s) t then
+        let* v := dur_plus (st_total s) d in
+        Ok ({| st_tag := st_tag s; st_total := v; st_count := (st_count s + 1)%Z |} :: r)
+      else let* r' := stats_put r t d in Ok (s :: r')
+    end.
+
+  (* the loop body for one entry; [alreadyCounted] is never written in the Go code, the map keys are
+     distinct by construction *)
+  Definition entry_put (r : record) (acc : list stat) (e : entry) : outcome (list stat) :=
+    let* rt := summary_tags_o (rec_summary r) in
+    let* et := summary_tags_o (e_summary e) in
+    let all := ts_merge [rt; et] in
+    fold_o (fun a t => stats_put a t (entry_minutes e)) (ts_lookup all) acc.
+
+  Definition record_put (acc : list stat) (r : record) : outcome (list stat) :=
+    fold_o (entry_put r) (rec_entries r) acc.
+
+  (* AggregateTotalsByTags: sort.Slice by keyForSort (the keys are distinct, Proofs/Tags.v) *)
+  Definition aggregate_o (rs : list record) : outcome (list stat) :=
+    let* tbt := fold_o record_put rs [] in
+    Ok (sort_by stat_ltb tbt).
+End Tags.
+
+(* ================= instances at the Go toolchain's tables ================= *)
+
+Definition go_summary_tags_o := summary_tags_o go_is_letter go_to_lower.
+Definition go_new_tag_from_string := new_tag_from_string go_is_letter go_to_lower.
+Definition go_tag_to_string := tag_to_string go_is_letter.
+Definition go_aggregate_o := aggregate_o go_is_letter go_to_lower.
